@@ -20,6 +20,14 @@ def install_schema(reg: Registry):
     s.add_class(MODEL, {'name': T.str, 'assets': List(Obj(ASSET)), 'associations': List(Obj(ASSOC)),
                         '_type_to_association': Dict(T.str, List(Obj(ASSOC))), 'attackers': List(Obj('AttackerAttachment'))})
     reg.classes[ASSOC] = ClassInfo(ASSOC, None, False)
+    reg.classes[ASSOC].class_name_field = 'clsname'
+    # mutators (c_modelmut.py): index sets, id counter; PJS attributes that exist only once assigned (`name`, `extras`)
+    # are modelled with ghost presence flags (hasattr(asset, 'name') <-> has_name)
+    s.add_class(ASSET, {'extras': Dict(T.str, T.val), 'has_name': T.bool, 'has_extras': T.bool})
+    s.add_class(ASSOC, {'extras': Dict(T.str, T.val)})
+    s.add_class(MODEL, {'asset_ids': T('set', cls='set', elem=T.int), 'asset_names': T('set', cls='set', elem=T.str), 'next_id': T.int})
+    s.presence[(ASSET, 'name')] = 'has_name'
+    s.presence[(ASSET, 'extras')] = 'has_extras'
 
     def assoc_getattr(ex, st, o, name):
         a = ex.as_ref(o, st, 'getattr')
@@ -58,3 +66,129 @@ def backrefs_ok(h: H, M, x):
         FA([k], z3.Implies(h.bag(AL, k) > 0, is_VRef(k)), [h.bag(AL, k)]),
         FA([s, k], z3.Implies(z3.And(h.cnt(h.f('associations', M), s) > 0, h.bag(h.f('lfield', s), k) > 0), is_VRef(k)), [h.bag(h.f('lfield', s), k)]),
         FA([s, k], z3.Implies(z3.And(h.cnt(h.f('associations', M), s) > 0, h.bag(h.f('rfield', s), k) > 0), is_VRef(k)), [h.bag(h.f('rfield', s), k)]))
+
+
+# ---------------------------------------------------------------------------------------------------
+# wf_model (C05): the representation invariant of Model; every public mutator is verified to preserve it
+AA, EP = 'AttackerAttachment', 'EPTuple'
+BUCKET = '<dict value>'
+
+
+def is_asset(h, M, x): return h.cnt(h.f('assets', M), x) > 0
+def is_assoc(h, M, s): return h.cnt(h.f('associations', M), s) > 0
+def is_attk(h, M, a): return h.cnt(h.f('attackers', M), a) > 0
+def in_l(h, s, x): return h.cnt(h.f('lfield', s), x)
+def in_r(h, s, x): return h.cnt(h.f('rfield', s), x)
+def owned(h, l, obj, fld): return z3.And(h.own_obj(l) == obj, h.own_fld(l) == field_id(fld))
+def ep_of(h, a, t): return h.cnt(h.f('entry_points', a), t) > 0
+
+
+def wf_att(h: H, a, tag='wa'):
+    """well-formedness of one AttackerAttachment: it owns its entry-point list, whose elements are distinct
+    (asset, [step names]) tuples with pairwise different assets, each owning its list of step names"""
+    t, u = A('t!' + tag), A('u!' + tag)
+    k = z3.Const('k!' + tag, Val)
+    E = h.f('entry_points', a)
+    return [
+        ('A.own', owned(h, E, a, 'entry_points')),
+        ('A.elems', FA([k], z3.And(h.bag(E, k) >= 0, z3.Implies(h.bag(E, k) > 0, is_VRef(k))), [h.bag(E, k)])),
+        ('A.tuples', FA([t], z3.Implies(ep_of(h, a, t), z3.And(h.cls(t) == class_id(EP), owned(h, h.f('t1', t), t, 't1'), h.cnt(E, t) <= 1)),
+                        [h.cnt(E, t)])),
+        ('A.one-tuple-per-asset', FA([t, u], z3.Implies(z3.And(ep_of(h, a, t), ep_of(h, a, u), h.f('t0', t) == h.f('t0', u)), t == u),
+                                     [(h.cnt(E, t), h.cnt(E, u))])),
+        ('A.steps', FA([t, k], z3.Implies(ep_of(h, a, t), z3.And(h.bag(h.f('t1', t), k) >= 0, z3.Implies(h.bag(h.f('t1', t), k) > 0, is_VStr(k)))),
+                       [h.bag(h.f('t1', t), k)])),
+    ]
+
+
+def entry(h: H, a, x, step):
+    """abstract view of an attachment: (asset x, step) is an entry point of a"""
+    t = A('t!en')
+    return z3.Exists([t], z3.And(ep_of(h, a, t), h.f('t0', t) == x, h.bag(h.f('t1', t), VStr(step)) > 0))
+
+
+def wf_model(h: H, M, parts=('M0', 'M1', 'M2', 'M3', 'M4', 'M5')):
+    x, y, s, r, a, b, t, u = A('x!wm'), A('y!wm'), A('s!wm'), A('r!wm'), A('a!wm'), A('b!wm'), A('t!wm'), A('u!wm')
+    k, k2 = z3.Const('k!wm', Val), z3.Const('k2!wm', Val)
+    XL, SL, AL, D = h.f('assets', M), h.f('associations', M), h.f('attackers', M), h.f('_type_to_association', M)
+    IDS, NMS = h.f('asset_ids', M), h.f('asset_names', M)
+    out = []
+    if 'M0' in parts:
+        out += [
+            ('M0.own.model', z3.And(*[owned(h, h.f(f, M), M, f) for f in ('assets', 'associations', 'attackers', '_type_to_association',
+                                                                          'asset_ids', 'asset_names')])),
+            ('M0.own.asset', FA([x], z3.Implies(is_asset(h, M, x), owned(h, h.f('associations', x), x, 'associations')), [h.f('associations', x)])),
+            ('M0.own.assoc', FA([s], z3.Implies(is_assoc(h, M, s), z3.And(owned(h, h.f('lfield', s), s, 'lfield'), owned(h, h.f('rfield', s), s, 'rfield'))),
+                                [h.f('lfield', s)], )),
+            ('M0.own.assoc2', FA([s], z3.Implies(is_assoc(h, M, s), z3.And(owned(h, h.f('lfield', s), s, 'lfield'), owned(h, h.f('rfield', s), s, 'rfield'))),
+                                 [h.f('rfield', s)], )),
+            ('M0.own.bucket', FA([k], z3.Implies(h.has(D, k), z3.And(is_VRef(h.val(D, k)), is_VStr(k), owned(h, v_a(h.val(D, k)), D, BUCKET),
+                                                                    h.cls(v_a(h.val(D, k))) == CLS_LIST, v_a(h.val(D, k)) >= 0, v_a(h.val(D, k)) < h.alloc)),
+                                 [h.has(D, k)], )),
+            ('M0.bucket-keys', FA([k, k2], z3.Implies(z3.And(h.has(D, k), h.has(D, k2), h.val(D, k) == h.val(D, k2)), k == k2), [(h.has(D, k), h.has(D, k2))])),
+            ('M0.cls', z3.And(FA([x], z3.Implies(is_asset(h, M, x), h.cls(x) == class_id(ASSET)), [h.cnt(XL, x)]),
+                              FA([s], z3.Implies(is_assoc(h, M, s), h.cls(s) == class_id(ASSOC)), [h.cnt(SL, s)]),
+                              FA([a], z3.Implies(is_attk(h, M, a), h.cls(a) == class_id(AA)), [h.cnt(AL, a)]), h.cls(M) == class_id(MODEL))),
+            ('M0.elems', z3.And(*[FA([k], z3.And(h.bag(L_, k) >= 0, z3.Implies(h.bag(L_, k) > 0, is_VRef(k))), [h.bag(L_, k)]) for L_ in (XL, SL, AL)])),
+            ('M0.elems.assoc', z3.And(*[FA([s, k], z3.Implies(is_assoc(h, M, s), z3.And(h.bag(h.f(f, s), k) >= 0, z3.Implies(h.bag(h.f(f, s), k) > 0, is_VRef(k)))),
+                                            [h.bag(h.f(f, s), k)]) for f in ('lfield', 'rfield')])),
+            ('M0.elems.backrefs', FA([x, k], z3.Implies(is_asset(h, M, x), z3.And(h.bag(h.f('associations', x), k) >= 0,
+                                                                                  z3.Implies(h.bag(h.f('associations', x), k) > 0, is_VRef(k)))),
+                                     [h.bag(h.f('associations', x), k)])),
+            ('M0.elems.bucket', FA([k, k2], z3.Implies(h.has(D, k), z3.And(h.bag(v_a(h.val(D, k)), k2) >= 0,
+                                                                           z3.Implies(h.bag(v_a(h.val(D, k)), k2) > 0, is_VRef(k2)))),
+                                   [h.bag(v_a(h.val(D, k)), k2)])),
+        ]
+    if 'M1' in parts:
+        out += [
+            ('M1.nodup', FA([x], h.cnt(XL, x) <= 1, [h.cnt(XL, x)])),
+            ('M1.ids', FA([x], z3.Implies(is_asset(h, M, x), z3.And(is_VInt(h.f('id', x)), h.f('has_name', x))), [h.cnt(XL, x)])),
+            ('M1.ids-distinct', FA([x, y], z3.Implies(z3.And(is_asset(h, M, x), is_asset(h, M, y), h.f('id', x) == h.f('id', y)), x == y),
+                                   [(h.cnt(XL, x), h.cnt(XL, y))])),
+            ('M1.names-distinct', FA([x, y], z3.Implies(z3.And(is_asset(h, M, x), is_asset(h, M, y), h.f('name', x) == h.f('name', y)), x == y),
+                                     [(h.cnt(XL, x), h.cnt(XL, y))])),
+        ]
+    if 'M2' in parts:
+        out += [
+            ('M2.ids.complete', FA([x], z3.Implies(is_asset(h, M, x), h.has(IDS, h.f('id', x))), [h.cnt(XL, x)])),
+            ('M2.ids.sound', FA([k], z3.Implies(h.has(IDS, k), z3.Exists([x], z3.And(is_asset(h, M, x), h.f('id', x) == k))), [h.has(IDS, k)])),
+            ('M2.names.complete', FA([x], z3.Implies(is_asset(h, M, x), h.has(NMS, VStr(h.f('name', x)))), [h.cnt(XL, x)])),
+            ('M2.names.sound', FA([k], z3.Implies(h.has(NMS, k), z3.Exists([x], z3.And(is_asset(h, M, x), VStr(h.f('name', x)) == k))), [h.has(NMS, k)])),
+        ]
+    if 'M3' in parts:
+        out += [
+            ('M3.nodup', FA([s], h.cnt(SL, s) <= 1, [h.cnt(SL, s)])),
+            ('M3.field-names', FA([s], z3.Implies(is_assoc(h, M, s), h.f('lname', s) != h.f('rname', s)), [h.cnt(SL, s)])),
+            ('M3.closed.l', FA([s, x], z3.Implies(z3.And(is_assoc(h, M, s), in_l(h, s, x) > 0), is_asset(h, M, x)), [in_l(h, s, x)])),
+            ('M3.closed.r', FA([s, x], z3.Implies(z3.And(is_assoc(h, M, s), in_r(h, s, x) > 0), is_asset(h, M, x)), [in_r(h, s, x)])),
+            # an asset lists an association exactly when (once) that association is in the model and lists the asset
+            ('M3.backrefs', FA([x, s], z3.Implies(is_asset(h, M, x), h.cnt(h.f('associations', x), s) ==
+                                                  z3.If(z3.And(is_assoc(h, M, s), z3.Or(in_l(h, s, x) > 0, in_r(h, s, x) > 0)), 1, 0)),
+                               [h.cnt(h.f('associations', x), s)])),
+        ]
+    if 'M4' in parts:
+        out += [
+            ('M4.bucket.complete', FA([s], z3.Implies(is_assoc(h, M, s), z3.And(h.has(D, VStr(h.f('clsname', s))),
+                                                                               h.cnt(v_a(h.val(D, VStr(h.f('clsname', s)))), s) == 1)), [h.cnt(SL, s)])),
+            ('M4.bucket.sound', FA([k, s], z3.Implies(z3.And(h.has(D, k), h.cnt(v_a(h.val(D, k)), s) > 0),
+                                                      z3.And(is_assoc(h, M, s), VStr(h.f('clsname', s)) == k, h.cnt(v_a(h.val(D, k)), s) == 1)),
+                                   [h.cnt(v_a(h.val(D, k)), s)])),
+        ]
+    if 'M5' in parts:
+        E = lambda q: h.f('entry_points', q)
+        out += [
+            ('M5.nodup', FA([a], h.cnt(AL, a) <= 1, [h.cnt(AL, a)])),
+            ('M5.own', FA([a], z3.Implies(is_attk(h, M, a), owned(h, E(a), a, 'entry_points')), [E(a)])),
+            ('M5.elems', FA([a, k], z3.Implies(is_attk(h, M, a), z3.And(h.bag(E(a), k) >= 0, z3.Implies(h.bag(E(a), k) > 0, is_VRef(k)))), [h.bag(E(a), k)])),
+            ('M5.tuples', FA([a, t], z3.Implies(z3.And(is_attk(h, M, a), ep_of(h, a, t)),
+                                                z3.And(h.cls(t) == class_id(EP), owned(h, h.f('t1', t), t, 't1'), h.cnt(E(a), t) <= 1,
+                                                       is_asset(h, M, h.f('t0', t)))), [h.cnt(E(a), t)])),
+            ('M5.one-tuple-per-asset', FA([a, t, u], z3.Implies(z3.And(is_attk(h, M, a), ep_of(h, a, t), ep_of(h, a, u), h.f('t0', t) == h.f('t0', u)), t == u),
+                                          [(h.cnt(E(a), t), h.cnt(E(a), u))])),
+            ('M5.tuples-unshared', FA([a, b, t], z3.Implies(z3.And(is_attk(h, M, a), is_attk(h, M, b), ep_of(h, a, t), ep_of(h, b, t)), a == b),
+                                      [(h.cnt(E(a), t), h.cnt(E(b), t))])),
+            ('M5.steps', FA([a, t, k], z3.Implies(z3.And(is_attk(h, M, a), ep_of(h, a, t)),
+                                                  z3.And(h.bag(h.f('t1', t), k) >= 0, z3.Implies(h.bag(h.f('t1', t), k) > 0, is_VStr(k)))),
+                            [(h.cnt(E(a), t), h.bag(h.f('t1', t), k))])),
+        ]
+    return out
